@@ -509,6 +509,9 @@ func c07GenCase(c *Case, group string, cat *c07Catalogue, nShifts int) {
 	// the report of the first one
 	c07Neighbour(c, base, ds0, group, seed, cat)
 
+	// (f) node properties: the same construct written with an anchor and / or an explicit tag
+	c07Properties(c, base, ds0, obs0, group, seed, cat)
+
 	// (c) shifts
 	kinds := base.shifts
 	for s := 0; s < nShifts; s++ {
@@ -734,6 +737,165 @@ func c07Variant(c *Case, base *c07Built, ds0 []Diag, obs0 []c07Obs, group string
 	}
 }
 
+// c07Properties re-emits the case with node properties (&anchor, !!tag, both in either order, 1-3
+// blanks after each) before the scalar that carries the construct - value or key. The properties
+// are not part of the scalar text: every diagnostic must keep its offset from the construct's
+// recorded position (checked against the base rendering, so no convention is needed and other
+// open defects do not interfere), and k more blanks between the properties and the text must
+// move the report by exactly k. A report that is displaced by exactly the width of the properties
+// (= counted from the anchor / tag, where the YAML library places such a node) gets the narrow
+// signature C07:abs:<group>:anchored|tagged|anchored+tagged.
+func c07Properties(c *Case, base *c07Built, ds0 []Diag, obs0 []c07Obs, group string, seed uint64, cat *c07Catalogue) {
+	if base.kind == "schedule-item" {
+		return // reported at the sequence element, whose first character IS the property of its first key
+	}
+	r := c.R.Sub(900)
+	anchor := r.Pick([]string{"a", "anc", "anchor_1", "x-y_z"})
+	tag := "!!str"
+	if base.allowedStyles == "p" {
+		tag = "" // the plain form is required because the value is a number: a !!str tag would change the case
+	}
+	b1, b2 := c07Spaces(r.Range(1, 3)), c07Spaces(r.Range(1, 3))
+	var prop, class string
+	choice := r.Intn(5)
+	if tag == "" && choice != 0 {
+		choice = 0
+	}
+	switch choice {
+	case 0, 1:
+		prop, class = "&"+anchor+b1, "anchored"
+	case 2:
+		prop, class, anchor = tag+b1, "tagged", ""
+	case 3:
+		prop, class = "&"+anchor+b1+tag+b2, "anchored+tagged"
+	default:
+		prop, class = tag+b1+"&"+anchor+b2, "anchored+tagged"
+	}
+	tagged := strings.Contains(prop, "!!")
+	fm := byte('b')
+	if base.inFlow {
+		fm = 'f'
+	}
+	build := func(pr string) (*c07Built, []Diag, []c07Obs, bool) {
+		vb := c07Build(group, seed, c07Shift{}, cat, base.style, fm, false, pr)
+		if !vb.ok || vb.inFlow != base.inFlow || vb.target.val != base.target.val || len(vb.expects) != len(base.expects) {
+			c.Count("property_variant_not_applicable", 1)
+			return nil, nil, nil, false
+		}
+		if vb.target.pos.Line != base.target.pos.Line || vb.target.pos.Col != base.target.pos.Col+len(pr) || !c07YAMLHasPropScalarAt(vb.src, vb.target.propPos, vb.target.val, anchor, tagged) {
+			c.Count("gen_property_variant_inconsistent", 1)
+			c.SetAdd("gen_property_variant_inconsistent_at", c07SiteNames(base)+"|"+class)
+			if os.Getenv("C07_DEBUG") != "" {
+				fmt.Printf("PROP-INCONSISTENT %s %q\n%s\n", class, pr, vb.src)
+			}
+			return nil, nil, nil, false
+		}
+		ds, err := lintSrc(vb.src)
+		c.Eval(1)
+		if err != nil {
+			c.Violation("C07:fatal-error", "linting a generated workflow returned a fatal error: "+err.Error(), map[string]interface{}{"src": vb.src})
+			return nil, nil, nil, false
+		}
+		c.Logf("---- property variant %q\n%s", pr, vb.src)
+		c.Logf("diagnostics: %s", strings.Join(diagStrings(ds), "\n             "))
+		c07Bounds(c, "generated:"+group, vb.src, ds, func() map[string]interface{} { return c07Detail(vb, ds, nil) })
+		obs, unmatched, missing := c07Match(vb, ds)
+		if len(unmatched) > 0 || len(missing) > 0 {
+			c.Count("property_variant_skipped_other_diagnostics", 1)
+			c.SetAdd("property_variant_skipped_at", c07SiteNames(base)+"/"+base.kind+"/"+class)
+			if os.Getenv("C07_DEBUG") != "" {
+				fmt.Printf("PROP-SKIP %s %s %s: extra %v missing %v\n%s\n", class, c07SiteNames(base), base.kind, diagStrings(unmatched), missing, vb.src)
+			}
+			return nil, nil, nil, false
+		}
+		return vb, ds, obs, true
+	}
+	offs := func(o c07Obs) [][2]int {
+		var out [][2]int
+		for _, d := range o.got {
+			out = append(out, [2]int{d.Line - o.want.Line, d.Col - o.want.Col})
+		}
+		sort.Slice(out, func(i, j int) bool {
+			if out[i][0] != out[j][0] {
+				return out[i][0] < out[j][0]
+			}
+			return out[i][1] < out[j][1]
+		})
+		return out
+	}
+	report := func(vb *c07Built, ds []Diag, what string, dl, dc, width int, extra map[string]interface{}) {
+		sig := fmt.Sprintf("C07:abs:%s:%s", base.group, class)
+		if !(dl == 0 && dc == -width) {
+			sig = fmt.Sprintf("C07:properties:%s:%s:%s:dl=%+d,dc=%+d", base.group, base.site, class, dl, dc)
+		}
+		det := map[string]interface{}{"base": c07Detail(base, ds0, nil), "with_properties": c07Detail(vb, ds, nil), "properties": vb.target.prop, "scalar_text_at": vb.target.pos, "properties_at": vb.target.propPos}
+		for k, v := range extra {
+			det[k] = v
+		}
+		c.Violation(sig, what, det)
+	}
+	v1, ds1, obs1, ok := build(prop)
+	if !ok {
+		return
+	}
+	c.Count("property_variants_compared", 1)
+	c.SetAdd("property_classes", group+"|"+class+"|"+base.styleName())
+	c.SetAdd("property_kind_x_class", base.kind+"|"+class)
+	if base.isKey {
+		c.SetAdd("property_on_keys", class)
+	}
+	siteName := c07SiteNames(base)
+	good := true
+	for i := range obs1 {
+		a, b := offs(obs0[i]), offs(obs1[i])
+		if len(a) != len(b) {
+			c.Count("property_variant_diag_count_differs", 1)
+			good = false
+			continue
+		}
+		for j := range a {
+			c.Count("property_offsets_checked", 1)
+			if a[j] != b[j] {
+				good = false
+				dl, dc := b[j][0]-a[j][0], b[j][1]-a[j][1]
+				report(v1, ds1, fmt.Sprintf("%s diagnostic (site %s, %s scalar): with the node properties %q before the scalar the report is displaced by %+d lines %+d columns from where it is without them (properties are %d characters wide; the scalar text starts at %d:%d): %s",
+					base.kind, siteName, base.styleName(), prop, dl, dc, len(prop), v1.target.pos.Line, v1.target.pos.Col, obs1[i].exp.msg), dl, dc, len(prop), nil)
+			}
+		}
+	}
+	// shift: k more blanks between the properties and the scalar text
+	k := r.Range(1, 5)
+	v2, ds2, obs2, ok := build(prop + c07Spaces(k))
+	if !ok {
+		return
+	}
+	c.Count("property_blank_shifts_compared", 1)
+	for i := range obs2 {
+		if len(obs1[i].got) != len(obs2[i].got) {
+			continue
+		}
+		// positions (not offsets): the text moved k columns to the right
+		p1, p2 := obs1[i].got, obs2[i].got
+		sort.Slice(p1, func(x, y int) bool { return p1[x].Col < p1[y].Col })
+		sort.Slice(p2, func(x, y int) bool { return p2[x].Col < p2[y].Col })
+		for j := range p1 {
+			moved := p2[j].Col - p1[j].Col
+			if p2[j].Line != p1[j].Line || moved != k {
+				if !good && moved == 0 {
+					continue // already reported above: the position is counted from the properties
+				}
+				if moved == 0 && p2[j].Line == p1[j].Line {
+					report(v2, ds2, fmt.Sprintf("%s diagnostic (site %s): %d more blanks between the node properties %q and the scalar text did not move the report (%d:%d)", base.kind, siteName, k, prop, p2[j].Line, p2[j].Col), 0, -len(prop)-k, len(prop)+k, map[string]interface{}{"k": k})
+				} else {
+					c.Violation(fmt.Sprintf("C07:shift:property-blanks:%s:%s:%s", base.group, base.site, class),
+						fmt.Sprintf("%s diagnostic (site %s): %d more blanks between the node properties and the scalar text moved the report by %d columns", base.kind, siteName, k, moved),
+						map[string]interface{}{"first": c07Detail(v1, ds1, nil), "second": c07Detail(v2, ds2, nil), "k": k})
+				}
+			}
+		}
+	}
+}
+
 // c07Neighbour re-lints the base case with one more erroneous construct added after the target in
 // the same holder. Every diagnostic of the base must still be reported at the same position; a
 // diagnostic whose message disappeared is not compared (the added entry may legitimately change
@@ -933,13 +1095,14 @@ func c07ExplicitKeyCase(c *Case) {
 // ---------------------------------------------------------------------------
 
 func runC07(r *Run) {
-	r.Rule = "generated workflows (clean base + exactly one diagnosed construct written by a position-recording emitter): groups expr (lexer / parser / semantic / availability / untrusted-input / template errors at ~50 placeholder positions, embedded in text, whole-value, or bare if: condition), key (unexpected / duplicate / otherwise diagnosed keys), value (shell name, runner label, permission, event type, id, cron, action spec, typed literals ...), glob (offending character inside a filter pattern); layout drawn per case: indentation of every enclosing block, blanks after key:/-/brackets, block or flow holder, plain / single / double quoted, comment and blank lines, 0-3 earlier placeholders and 0-40 characters of text before the construct; sites pair.* hold a second construct diagnosed by another rule (glob, events, credentials, deprecated-commands, if-cond) in the same scalar, each with its own anchor; each case is linted as is (bounds + absolute position), re-linted with a further erroneous entry after it in the same holder (no interference), re-emitted in the other quoting styles and the other holder style (style / holder invariance + absolute position again) and re-emitted with 3 shifts (columns via indentation / padding / longer text / extra placeholder, or lines above). Plus the bounds oracle over every workflow under testdata/{ok,err,examples} and 13 kinds of byte / line mutations of them. Non-trivial = distinct (site, kind, mode, style, flow, position) of a generated case whose expected diagnostic was produced, or a distinct mutated corpus file that produced a non-YAML-level diagnostic."
+	r.Rule = "generated workflows (clean base + exactly one diagnosed construct written by a position-recording emitter): groups expr (lexer / parser / semantic / availability / untrusted-input / template errors at ~50 placeholder positions, embedded in text, whole-value, or bare if: condition), key (unexpected / duplicate / otherwise diagnosed keys), value (shell name, runner label, permission, event type, id, cron, action spec, typed literals ...), glob (offending character inside a filter pattern); layout drawn per case: indentation of every enclosing block, blanks after key:/-/brackets, block or flow holder, plain / single / double quoted, comment and blank lines, 0-3 earlier placeholders and 0-40 characters of text before the construct; sites pair.* hold a second construct diagnosed by another rule (glob, events, credentials, deprecated-commands, if-cond) in the same scalar, each with its own anchor; each case is linted as is (bounds + absolute position), re-linted with a further erroneous entry after it in the same holder (no interference), re-emitted with node properties (&anchor / !!str / both) before the scalar and again with k more blanks after them, re-emitted in the other quoting styles and the other holder style (style / holder invariance + absolute position again) and re-emitted with 3 shifts (columns via indentation / padding / longer text / extra placeholder, or lines above). Plus the bounds oracle over every workflow under testdata/{ok,err,examples} and 13 kinds of byte / line mutations of them. Non-trivial = distinct (site, kind, mode, style, flow, position) of a generated case whose expected diagnostic was produced, or a distinct mutated corpus file that produced a non-YAML-level diagnostic."
 	r.Assume("the exactness oracle is applied only to constructs written on one line in a plain, single- or double-quoted scalar without escape sequences, in ASCII")
 	r.Assume("'offending token' for a lexer error is the unexpected character, for a parser error the unexpected token (the end marker }} for unexpected end of input), for a semantic error the first token of the offending sub-expression (errorAtExpr convention named in the property's anchors); for key diagnostics the key, for value diagnostics the first character of the scalar including its quote, for glob diagnostics the character named in the message")
 	r.Assume("diagnostics reported at the end of input of a bare if: condition and at an unterminated string literal have no absolute convention in the statement: they are subject to the shift relation and to style / holder invariance (same offset from the construct in plain, single- and double-quoted scalars and in block / flow holders; a plain-vs-quoted difference is reported under the absolute oracle's signature with the plain rendering as reference)")
 	r.Assume("the diagnostic about an object / array / null evaluated in a template is about the placeholder and must be at its first character (the $ of ${{), the convention observed on plain scalars")
 	r.Assume("no-interference oracle: a further erroneous entry appended after the construct in the same holder must leave every diagnostic of the base at its position; a diagnostic whose message disappears is not compared (the added entry may change what is checked)")
 	r.Assume("blanks between the quotes and the text (0-6) are part of the layout of every expression site except if: placeholders (there they are diagnosed themselves as extra characters) and the two-rule sites")
+	r.Assume("node properties (&anchor, !!str, both in either order, 1-3 blanks after each) are not part of the scalar text: a diagnostic must keep its offset from the construct whether or not the scalar (value or key) carries them, and blanks between them and the text shift the report; aliases carry no position claim and are not generated; a number-typed plain value only gets an anchor (a !!str tag would change its kind); the diagnostic about a schedule element is reported at the element, which starts at the properties of its first key, and is not compared")
 	r.Assume("positions embedded in message texts (previously defined at line:L,col:C) are not compared")
 	r.Assume("a generated case that yields a diagnostic outside its expectation list, or lacks the expected one, is counted and skipped (floor: < 3% of the cases)")
 	r.Assume("lines are counted like the YAML reader does (LF, CRLF, CR, NEL, LS, PS)")
@@ -1112,6 +1275,23 @@ func runC07(r *Run) {
 	}
 	if r.Counter("neighbour_positions_confirmed") < compared/2 {
 		r.Inconclusive(fmt.Sprintf("no-interference oracle confirmed only %d positions for %d cases", r.Counter("neighbour_positions_confirmed"), compared))
+	}
+	for _, g := range []string{"expr", "key", "value", "glob"} {
+		for _, cl := range []string{"anchored", "tagged", "anchored+tagged"} {
+			for _, st := range []string{"plain", "single", "double"} {
+				if !r.SetHas("property_classes", g+"|"+cl+"|"+st) {
+					r.Inconclusive("node properties never compared: " + g + " / " + cl + " / " + st + " scalar")
+				}
+			}
+		}
+	}
+	for _, cl := range []string{"anchored", "tagged", "anchored+tagged"} {
+		if !r.SetHas("property_on_keys", cl) {
+			r.Inconclusive("node properties on a mapping key never compared: " + cl)
+		}
+	}
+	if r.Counter("property_variants_compared")*10 < compared*9 || r.Counter("property_blank_shifts_compared")*10 < compared*9 {
+		r.Inconclusive(fmt.Sprintf("node-property variants compared for only %d (blank shifts %d) of %d cases", r.Counter("property_variants_compared"), r.Counter("property_blank_shifts_compared"), compared))
 	}
 	for n := 0; n <= 3; n++ {
 		if !r.SetHas("earlier_placeholders", fmt.Sprint(n)) {
